@@ -151,7 +151,17 @@ def check_compile(ctx, ci, comp):
         v = fin.get('unpack')
         if v is None or not isinstance(v, ast.Attribute):
             raise Unknown('no unpack strategy installed on this path')
-        return kind_of.get(v.attr, 'unknown strategy %s' % v.attr)
+        # the installed function and the method values parked next to it on this path (a codec
+        # chosen at compile time and called by a shared framing function)
+        calls = set()
+        for x in fin.values():
+            if isinstance(x, ast.Attribute) and isinstance(x.value, ast.Name) and x.value.id == 'self':
+                m_ = repo.method(ci, x.attr)
+                if m_ is not None:
+                    calls |= {call_name(n) or '' for n in ast.walk(m_.node) if isinstance(n, ast.Call)}
+        if not calls:
+            return kind_of.get(v.attr, 'unknown strategy %s' % v.attr)
+        return 'arbitrary' if 'int.from_bytes' in calls else 'struct'
 
     def fmt(fin, env):
         structs = [v for v in fin.values() if isinstance(v, ast.Call) and call_name(v) in ('struct.Struct', 'Struct')]
@@ -190,7 +200,7 @@ def _replace_conf_get(e, value):
 
 def check_codecs(ctx, ci):
     repo = ctx.repo
-    w = repo.walker(max_paths=ctx.max_paths)
+    w = repo.walker(inline_depth=1, max_paths=ctx.max_paths)
     strat = repo.strategies(ci)
     BO = "('big' if self.is_bigendian else 'little')"
     GETV = canon(ast.parse('getattr(pkt, self.field_name)', mode='eval').body)
